@@ -47,7 +47,14 @@ def _worker(job):
     configs, histories = job
     w = World()
     states = trans = 0
+    import time as _time
+    t_stop = _time.time() + (600 if _G["tier"] == "quick" else 4300)
     for (excl, incl, mapping, window_open) in configs:
+        if _time.time() > t_stop:
+            rep.inconc("time budget of the worker exhausted before configuration %r" % ((excl, incl, mapping, window_open),))
+            break
+        if len(rep.violations) >= 8:
+            break          # enough counterexamples from this share of the configurations
         for hist in histories:
             def h():
                 dec = R.decoder.NMEA2000Decoder(exclude_manufacturer_code=list(excl), include_manufacturer_code=list(incl), build_network_map=mapping)
